@@ -143,10 +143,35 @@ func genShape(p *pkgInfo, out string) {
 	flag("becomeLeaderRefusesWhenStopped", "becomeLeader returns false before raising the flag when !e.running()",
 		ok && strings.Contains(pre, "if !e.running() {") && strings.Count(pre, "return false") >= 2)
 	bf := p.fn("kvElection.becomeFollower")
-	pre2, ok2 := p.stmtsBefore(bf, "e.state.Store(StateFollower)")
-	pre2 = squash(pre2)
-	flag("becomeFollowerKeepsStopped", "becomeFollower returns before recording FOLLOWER when !e.running()",
-		ok2 && strings.Contains(pre2, "if !e.running() {") && strings.Contains(pre2, "return wasLeader"))
+	// the top-level `if !e.running() { … return wasLeader }` precedes the top-level record of FOLLOWER; inside it FOLLOWER is
+	// recorded only when no stop call ended the run (`if !e.stopped {`: the caller's context did)
+	keeps := false
+	seenGuard := false
+	for _, st := range bf.Body.List {
+		src := squash(p.src(st))
+		if ifs, ok := st.(*ast.IfStmt); ok && squash(p.src(ifs.Cond)) == "!e.running()" {
+			iStopped := strings.Index(src, "if !e.stopped {")
+			iStore := strings.Index(src, "e.state.Store(StateFollower)")
+			seenGuard = strings.HasSuffix(src, "return wasLeader }") && strings.Count(src, "e.state.Store(") <= 1 &&
+				(iStore < 0 || (iStopped >= 0 && iStopped < iStore))
+			continue
+		}
+		if strings.HasPrefix(src, "e.state.Store(StateFollower)") {
+			keeps = seenGuard
+			break
+		}
+	}
+	flag("becomeFollowerKeepsStopped", "becomeFollower returns before recording FOLLOWER when !e.running() (a run ended by a stop call stays STOPPED)", keeps)
+	stt := squash(p.src(p.fn("kvElection.Start").Body))
+	iCtx := strings.Index(stt, "e.ctx, e.cancel = context.WithCancel(ctx)")
+	iLead := strings.Index(stt, "if e.isLeader.Load() { return ErrAlreadyStarted }")
+	flag("startRefusedWhileLeading", "Start refuses to begin a run while the leadership flag of the previous one is still raised",
+		iLead >= 0 && iCtx > iLead)
+	flag("ctxCancelStepsDown", "Start spawns a goroutine that steps down when the run's context ends without a stop call",
+		strings.Contains(stt, "<-runCtx.Done()") && strings.Contains(stt, "byStop := e.stopped || e.ctx != runCtx") &&
+			strings.Contains(stt, "if !byStop { e.stepDown(\"context_cancelled\") }"))
+	flag("startResetsWatcherFlag", "Start clears watcherRunning (a watch loop of the previous run may still be winding down)",
+		strings.Contains(stt, "e.watcherRunning.Store(false)"))
 	rd := squash(p.src(p.fn("kvElection.attemptAcquireWithRetry").Body))
 	flag("roundChecksLeader", "attemptAcquireWithRetry tests IsLeader before each attempt and before the final fallback",
 		strings.Count(rd, "if e.IsLeader() { return }") >= 2)
